@@ -9,6 +9,16 @@ TRUST = ("Trusted base: clang 14 front end and its debug info, the LLVM-14 IR re
          "the rule tables documented in DESIGN.md. ")
 
 CLAIMS = {
+    "C17": dict(
+        category="other",
+        technique="static analysis: forward must-initialised dataflow over the leaves of every result type (DWARF), per-iteration must-analysis for result arrays, entity-field read coverage, pointer provenance (allocator-only) and shallow-copy detection, structural comparison of count and fill guards",
+        text=("Decides for all 41 struct-returning public getters, the 8 snapshot helpers and the 11 free functions: every leaf of every result assigned on every return path; every leaf of every "
+              "array element assigned per iteration and, in snapshot helpers, unconditionally; single getters read every data field of the looked-up entity; pointer leaves of results "
+              "only from allocators/NULL and no shallow block copy of pointer-bearing elements from library state; list length and fill loop guarded identically; no double free. "
+              "Equality of values at a quiescent moment is not decided."),
+        note=TRUST + "Leaves come from DWARF type info of the result types; padding bytes are not leaves.",
+        design="DESIGN.md section 4, C17",
+    ),
     "C18": dict(
         category="other",
         technique="static analysis: interval abstract interpretation with relational guard facts at all constructor call sites and in the encoders (length, VLA and array bounds), literal-type rule, CFG path rule (one transmit, none after rejection), exhaustive constant-propagation over 0..255 of documented parameter ranges",
